@@ -1634,10 +1634,12 @@ void Validator::ValidatorImpl::validateMath(const std::string &input, const Comp
 
         mathNode = mathmlDoc->rootNode();
 
-        auto childCount = mathmlChildCount(mathNode);
+        if (mathNode != nullptr) {
+            auto childCount = mathmlChildCount(mathNode);
 
-        for (size_t i = 0; i < childCount; ++i) {
-            validateMathMLElementsChildrenAndSiblings(mathmlChildNode(mathNode, i), component);
+            for (size_t i = 0; i < childCount; ++i) {
+                validateMathMLElementsChildrenAndSiblings(mathmlChildNode(mathNode, i), component);
+            }
         }
     }
 }
